@@ -50,6 +50,8 @@ class Rng:
 
     def reset(self, ctx):
         self.ctx = ctx
+        if "OS_" in globals():
+            OS_.entropy = []
         self.n_unseeded = 0
         self.seed_calls = []
         self.new_unseeded()
@@ -196,9 +198,17 @@ class Clock:
         return t
 
 
+class _Entropy:
+    """result of os.urandom under exploration: an integer the solver chooses, different from every earlier entropy read"""
+
+    def __init__(self, sym, nbytes):
+        self.sym, self.nbytes = sym, nbytes
+
+
 class Os:
     def __init__(self):
         self.pid = None
+        self.entropy = []
 
     def getpid(self):
         if not _live():
@@ -207,6 +217,18 @@ class Os:
             return _os.getpid()
         return self.pid
 
+    def urandom(self, n):
+        if not _live():
+            import os as _os
+
+            return _os.urandom(n)
+        ctx = V.get_context()
+        e = ctx.int(f"os_entropy{len(self.entropy)}", 0, 256 ** int(n) - 1)
+        for other in self.entropy:
+            ctx.assume(e != other)
+        self.entropy.append(e)
+        return _Entropy(e, int(n))
+
 
 CLOCK, OS_ = Clock(), Os()
 
@@ -214,6 +236,12 @@ CLOCK, OS_ = Clock(), Os()
 class _IntShim:
     def __call__(self, x=0, *a):
         return shims.sym_int(x, *a)
+
+    @staticmethod
+    def from_bytes(b, byteorder="big", **kw):
+        if isinstance(b, _Entropy):
+            return b.sym
+        return int.from_bytes(b, byteorder, **kw)
 
     def __instancecheck__(self, inst):
         return isinstance(inst, int)
@@ -238,6 +266,7 @@ class PoolModel:
 
     pids = []
     cuts = None
+    parent_snap = None
 
     def __init__(self, processes=None, initializer=None):
         self.P = processes or 2
@@ -254,6 +283,7 @@ class PoolModel:
         idx = list(iterable)
         n = len(idx)
         snap = RNG.snapshot()
+        PoolModel.parent_snap = snap
         parent_pid = OS_.pid
         # solver-chosen contiguous chunking: 0 <= c1 <= ... <= n
         cuts = [0]
@@ -401,6 +431,71 @@ def sharing_condition(ta, tb):
     return z3.Or(*conds) if conds else z3.BoolVal(False)
 
 
+def on_the_fly_sharing_condition(ta, tb, snap):
+    """as sharing_condition, without the pairs of variates that the parent drew before it created the pool (generator state `snap`)"""
+    if snap is None:
+        return sharing_condition(ta, tb)
+    pseed, ppos = snap
+
+    def predrawn(s, p):
+        return z3.eq(s, pseed) and z3.is_int_value(p) and p.as_long() < ppos
+
+    conds = []
+    for (fa, sa, pa) in rng_apps(ta):
+        for (fb, sb, pb) in rng_apps(tb):
+            if fa == fb and not (predrawn(sa, pa) and predrawn(sb, pb)):
+                conds.append(z3.And(sa == sb, pa == pb))
+    return z3.Or(*conds) if conds else z3.BoolVal(False)
+
+
+def constant_seed_sharing_condition(ta, tb, snap):
+    """on-the-fly sharing through streams whose seeds are the same constant or the same term (not values derived from pid/clock/entropy
+    that merely happen to coincide)"""
+    pseed, ppos = snap if snap is not None else (None, 0)
+
+    def predrawn(s, p):
+        return pseed is not None and z3.eq(s, pseed) and z3.is_int_value(p) and p.as_long() < ppos
+
+    conds = []
+    for (fa, sa, pa) in rng_apps(ta):
+        for (fb, sb, pb) in rng_apps(tb):
+            if fa == fb and not (predrawn(sa, pa) and predrawn(sb, pb)) and (z3.eq(sa, sb) or (z3.is_int_value(sa) and z3.is_int_value(sb))):
+                conds.append(z3.And(sa == sb, pa == pb))
+    return z3.Or(*conds) if conds else z3.BoolVal(False)
+
+
+def replay_seed_collision(sc):
+    """the real Configuration.initialisation_seed(multiprocessing=True) in two workers with the model's pids at the model's clock second"""
+    import numpy as _np
+
+    pids, clocks = sc["pids"], sc["clocks"]
+    cfg = CFG.ConfigurationStandard(mc_paths=4, seed=sc.get("seed"), nb_of_processes=2)
+    saved = CFG.time, CFG.os
+    streams = []
+    try:
+        for pid, clock in zip(pids, clocks):
+            class _T:
+                @staticmethod
+                def time(clock=clock):
+                    return clock
+
+            class _O:
+                @staticmethod
+                def getpid():
+                    return pid
+
+                urandom = staticmethod(__import__("os").urandom)
+
+            CFG.time, CFG.os = _T, _O
+            cfg.initialisation_seed(True)
+            streams.append(_np.random.normal(size=3).tolist())
+    finally:
+        CFG.time, CFG.os = saved
+    same = len(pids) >= 2 and streams[0] == streams[1]
+    return same, (f"workers with pids {pids} seeding themselves at clock readings {clocks} (Configuration.initialisation_seed(True)) then drawing 3 normals: "
+                  f"{streams[0]} and {streams[1] if len(streams) > 1 else None}")
+
+
 def standard_run(ctx, n, seed, nproc, pid=None):
     proc = LP.LevyProcess(DirectModel())
     cfg = CFG.ConfigurationStandard(mc_paths=n, seed=seed, nb_of_processes=nproc)
@@ -447,34 +542,70 @@ def replay_sharing_standard(sc):
     """real forked pool: duplicates among the simulated terminal values of distinct paths"""
     import numpy as _np
 
+    seed = sc.get("seed")
+    if sc.get("pids") and len(sc["pids"]) >= 2:
+        ok, detail = replay_seed_collision(sc)
+        if ok:
+            return ok, detail
+
     class M(DirectModel):
         def intensity(self):
-            return 0.0
+            return 0.0 if seed is None else 50.0  # seeded: many jumps, drawn inside the workers
+
+        def diffusion_coefficient(self):
+            return 1.0 if seed is None else 0.0
 
         def jump_increment(self, n):
             return _np.random.normal(size=int(n))
 
     proc = LP.LevyProcess(M())
-    cfg = CFG.ConfigurationStandard(mc_paths=8, seed=None, nb_of_processes=2)
+    cfg = CFG.ConfigurationStandard(mc_paths=8, seed=seed, nb_of_processes=2)
     eng = SE.Engine(cfg, proc)
     prod = SimpleProduct(_np.array([0.0, 1.0]))
     vals = _np.asarray(eng.price(prod)._payoff_statistics.stats).ravel()
+    if seed is None:
+        dup = len(vals) - len(set(vals.round(12)))
+        return dup > 0, f"standard engine, 2 worker processes, 8 paths (pure diffusion): {dup} payoffs coincide exactly: {sorted(vals.round(6).tolist())}"
+    # seeded, pure jump: jump counts are pre-drawn (the listed finding makes rows coincide), the jump sizes are drawn in the workers;
+    # two paths with the same jump count and exactly the same sum of jump sizes used the same worker-side variates
     dup = len(vals) - len(set(vals.round(12)))
-    return dup > 0, f"standard engine, 2 worker processes, 8 paths (pure diffusion): {dup} payoffs coincide exactly: {sorted(vals.round(6).tolist())}"
+    nz = [v for v in vals if v != 0.0]
+    dup_nz = len(nz) - len(set(_np.round(nz, 12)))
+    return dup_nz > 0, (f"standard engine, seed={seed}, 2 worker processes, 8 pure-jump paths (jump sizes drawn inside the workers): {dup_nz} non-zero payoffs "
+                        f"coincide exactly: {sorted(_np.round(vals, 6).tolist())}")
 
 
 def h_sharing_standard(ctx, n, nproc, seed):
     RNG.reset(ctx)
     CLOCK.reads, CLOCK.frozen = [], None
     PoolModel.pids = []
+    PoolModel.parent_snap = None
+    OS_.entropy = []
     OS_.pid = ctx.int("pid", 2)
     stats, samples = standard_run(ctx, n, seed, nproc)
     info = {"n": n, "processes": nproc, "seed": seed}
     for a in range(n):
         for b in range(a):
             cond = sharing_condition(samples[a], samples[b])
+            # the listed finding is the sharing of rows pre-drawn by the parent; two paths sharing a variate drawn inside the workers
+            # (after their seeding) lies outside it and is reported
+            fly = on_the_fly_sharing_condition(samples[a], samples[b], PoolModel.parent_snap)
+            const = constant_seed_sharing_condition(samples[a], samples[b], PoolModel.parent_snap)
+
+            def scenario(m, nw=nproc):
+                sc = {"seed": seed}
+                try:
+                    sc["pids"] = [m[f"pid_w{w}"] for w in range(nw)]
+                    reads = [float(m[k]) for k in sorted((k for k in m.symbols if k.startswith("clock")), key=lambda k: int(k[5:]))]
+                    sc["clocks"] = (reads or [1.0e9] * nw)[-nw:]
+                except Exception:
+                    pass
+                return sc
+
             ctx.prove("C08.no_two_paths_share_a_variate.standard", NOT(SymBool(cond)), info=dict(info, pair=(b, a)),
-                      replay=(replay_sharing_standard, lambda m: {}), regions={"worker_processes": nproc != 1})
+                      replay=(replay_sharing_standard, scenario),
+                      regions={"worker_processes": False if nproc == 1 else NOT(SymBool(fly)),
+                               "worker_seed_collision": False if nproc == 1 else NOT(SymBool(const))})
     ctx.prove("C08.pre_drawn_rows_consumed_exactly_once.standard", len(eng_rows(stats)) == 0 if nproc == 1 else True, info=info)
 
 
